@@ -58,7 +58,7 @@ func TestVerif_C01_Benign(t *testing.T) {
 		s := engaNewSim(t, cfg)
 		s.traceOn = true
 		c01Attach(s)
-		ent := func() uint64 { return uint64(rapid.IntRange(0, 1_000_000_000).Draw(t, "entropy")) }
+		ent := func() uint64 { return uint64(rapid.IntRange(0, 1_000_000_000).Draw(t, "entropy")) | 1 } // odd: see engaSched.entropy
 		ok := s.runBenign(rounds, 4000, ent)
 		if !ok {
 			// with few equal accounts a step committee can fall below its threshold (e.g. 3 of 4 accounts selected with
